@@ -27,9 +27,28 @@ def run(ctx):
     chk.ground('BLS_X = 0xd201000000010000 and negative', isinstance(bx, BV) and bx.v == ref.BLS_X and bneg is True, repr(bx))
     q, r = ref.Q, ref.R_ORDER
     D = models.UnitGroupDomain(qv)
-    ex = C.new_executor(ctx, D.models())
     N = qv ** 12 - 1
     zf = z3.Bool('f_is_zero')
+    # code may inspect the Fq6 halves of the input (f = c0 + c1 w): c1 = 0 <=> f in Fq6 <=> f = 0 or (q^6+1) | exponent
+    from mirsym.sym import Opaque
+
+    def fe_field(v, i):
+        if isinstance(v, GE) and v.ty == 'fq12::Fq12' and i in (0, 1):
+            return Opaque(('fq6-half', i, v))
+        return None
+
+    def h_fq6_is_zero(ex_, st_, m, a):
+        from mirsym.models import deref as _d
+        t = _d(ex_, st_, a[0])
+        if isinstance(t, Opaque) and t.what[0] == 'fq6-half':
+            _, i, v = t.what
+            e = v.c[0]
+            if i == 1:
+                return z3.Or(C.mk(v.tag), z3.BoolVal(e % (qv ** 6 + 1) == 0))          # c1 = 0  <=>  f in Fq6
+            return z3.Or(C.mk(v.tag), z3.BoolVal(False))                               # c0 = 0 for a unit: f in w*Fq6, not modelled further
+        return NotImplemented
+    ex = C.new_executor(ctx, [(r'<fq6::Fq6 as (?:ff::)?Field>::is_zero', h_fq6_is_zero)] + D.models())
+    ex.fe_field = fe_field
     st = State()
     rf = ex.alloc(st, D.mk(1, zf))
     res = ex.call(st, '<Bls12 as Engine>::final_exponentiation', [rf])
@@ -37,6 +56,14 @@ def run(ctx):
         raise Inconclusive('final_exponentiation returned %r' % (res,))
     out = res.payload['Some'][0]
     E = out.c[0]
+    if not isinstance(E, int):
+        # the exponent depends on a case split (e.g. on the zero flag): it must be the same integer on every path where the result is Some
+        Es = z3.simplify(z3.substitute(E, (zf, z3.BoolVal(False)))) if z3.is_expr(E) else E
+        if z3.is_expr(Es) and z3.is_int_value(Es):
+            chk.must_unsat('the exponent of the result does not depend on the case split when f != 0', z3.And(z3.Not(zf), res.disc == 1, E != Es), group='exponent')
+            E = Es.as_long()
+        else:
+            raise Inconclusive('result exponent is not a single integer: %s' % str(E)[:200])
     want = 3 * ((q ** 12 - 1) // r)
     chk.bounds = {'loops': 'exp_by_x: pow over 64 exponent bits, applied as multiplication of the exponent (leaf contract of Field::pow)',
                   'inputs': 'all units of Fq12 (formal generator) and the zero element (symbolic flag)'}
